@@ -13,3 +13,10 @@ impl<C, T> FlaggedStorage<C, T> {
 impl<C, T> DerefFlaggedStorage<C, T> {
     pub open spec fn emits(&self) -> bool { /*@IF storage-event-control*/ self.event_emission /*@ELSE*/ true /*@END*/ }
 }
+
+// ASSUMED contract on the wrapped kind's `TryDefault::unwrap_default()` (for the built-in kinds this is `Default::default()`,
+// proved empty and well-formed for DenseVecStorage / HashMapStorage / BTreeStorage in unit `kinds`)
+pub trait TryDefaultStorage<C>: UnprotectedStorage<C> {
+    fn unwrap_default() -> (r: Self)
+        ensures r.us_wf(), forall|i: Index| !r.has(i);
+}
